@@ -494,4 +494,48 @@ class HashObj(Obj):
         return self is other
 
 
-OBLIGATIONS = [C15a, C15a2, C15a3, C15b, C15c, C15d, C15e, C15f, C15g]
+from jedi.inference import syntax_tree as _jst  # noqa: E402
+from jedi.inference.base_value import NO_VALUES as _NO_VALUES  # noqa: E402
+
+
+class C15h(Obligation):
+    id = 'C15.h'
+    title = 'the statement guard covers EVERYTHING inferred for an assignment, its type comment included: a statement that is already being inferred yields nothing and starts no further inference'
+    pattern = 'P3 (infer_expr_stmt with the real guard; the two inference sinks are recording stubs; re-entrancy symbolic)'
+    assumptions = (
+        'the statement is / is not already on the stack of statements being inferred (symbolic); a name is / is not sought '
+        '(symbolic); find_type_from_comment_hint_assign and _infer_expr_stmt are stubs that record the stack they see',
+    )
+
+    def scenario(self, ctx, cfg):
+        reentrant = ctx.flag('statement_already_being_inferred')
+        seeking = ctx.flag('a_name_is_sought')
+        comment_types = ctx.flag('type_comment_gives_types')
+        ctx.int('unused')
+        stmt = Obj(tag='stmt')
+        stack = [Obj(tag='other')] + ([stmt] if reentrant else [])
+        depth = len(stack)
+        state = Obj(recursion_detector=Obj(pushed_nodes=stack), inferred_element_counts={}, builtins_module=None)
+        context = Obj(tree_node=Obj(tag='scope'), inference_state=state, parent_context=Obj(), get_value=lambda: None)
+        seen = []
+        ctx.patch(_jst.annotation, 'find_type_from_comment_hint_assign',
+                  lambda c, s, n: seen.append(('comment', len(stack))) or (['COMMENT-TYPE'] if comment_types else []))
+        ctx.patch(_jst, '_infer_expr_stmt', lambda c, s, n=None: seen.append(('infer', len(stack))) or ['INFERRED'])
+        raw = _jst.infer_expr_stmt
+        ctx.force(getattr(raw, '__wrapped__', raw))
+        out = ctx.call(_jst.infer_expr_stmt, context, stmt, Obj(tag='name') if seeking else None)
+        ctx.check(out.exc is None, 'never raises')
+        if out.exc is not None:
+            return
+        if reentrant:
+            ctx.check(out.value is _NO_VALUES and seen == [], 'a statement that is being inferred yields nothing and triggers no inference at all')
+        else:
+            ctx.check(all(d == depth + 1 for _, d in seen) and len(seen) >= 1, 'every inference for the statement runs under its guard')
+            if seeking and comment_types:
+                ctx.check(out.value == ['COMMENT-TYPE'], 'a type comment wins')
+            else:
+                ctx.check(out.value == ['INFERRED'], 'otherwise the right-hand side is inferred')
+        ctx.check(len(stack) == depth, 'the guard stack is restored')
+
+
+OBLIGATIONS = [C15a, C15a2, C15a3, C15b, C15c, C15d, C15e, C15f, C15g, C15h]
